@@ -525,7 +525,7 @@ func (e *Engine) fnModsRaw(f *ssa.Function) *ModSet {
 	}
 	for _, b := range f.Blocks {
 		for _, in := range b.Instrs {
-			e.instrMods(m, in, f)
+			e.instrMods(m, in, f, nil)
 		}
 	}
 	return m
